@@ -15,6 +15,8 @@ BUDGET = {
     "C07": B(1500, 15000),
     "C08": B(1500, 15000),
     "C20": B(1500, 15000),
+    "C06": B(700, 10000),
+    "C13": B(500, 7000),
     "C17": B(500, 6000, cpu_limit=60),
     "C18": B(300, 4000, cpu_limit=60),
     "C19": B(2500, 40000),
@@ -39,6 +41,19 @@ RULE = {
     "C03": SCHED + "Programs as C01 plus an ordering shape (a holder, then requests issued one by one, each only after the previous requester is parked). "
            "Oracle over the event log: for requests X, Y with PARK(X) < CALL(Y), not both reads: RET(X) < RET(Y). Non-trivial = at least one such ordered pair "
            "and two threads parked at once.",
+    "C06": "rapidcheck generates histories (<=40 ops quick, <=80 thorough) on a SubjectRouter or ConcurrentSubjectRouter (one thread): subscribe (several per key allowed, plain and "
+           "SelfView callables) under concrete keys of depth 0-3 over the names {a, b, ab, a.b, .*, ''}, unsubscribe, self-invalidation, shrink, and notify with patterns built per level "
+           "from a string or one of ten regexes (.*, .+, a|b, [ab]+, a.*, a\\.b, ab?, b, '', \\.\\*); one argument signature per case from {(), int, const std::string&, std::string by value, "
+           "(int, const std::string&), by-value class that records moves}. Oracle: own level-by-level matcher (one obviously-right predicate per regex, never std::regex); every expected "
+           "receiver exactly once, nobody else, exact argument values (a by-value payload must arrive un-moved-from at every receiver); return value == number of distinct matched keys "
+           "holding a subject; stored keys/exists/depth consistency after every op. Non-trivial = a regex notify with a non-empty argument list that matched >=2 keys while a non-matching "
+           "sibling of the same depth exists or a matched key repeats a name on two levels. Distinct = distinct case text.",
+    "C13": "rapidcheck generates histories (<=36 ops quick, <=70 thorough) rich in unsubscribe, SelfView invalidation, shrink (concrete, regex and wildcard patterns of depth 0-4, and "
+           "all()-built wildcards) and re-subscribe. Oracle: around every shrink a probe set (wildcards of every depth, every live concrete key, the shrink pattern) is notified before and "
+           "after: identical receivers; no key with a live subscription at or below disappears, nothing comes into existence, every removed key's parent lies on the pattern's path, a "
+           "full-depth wildcard shrink leaves no dead key. After every op: exists() on every concrete key of the finite universe equals the model's stored set, stored keys are prefix-closed, "
+           "depth() == 1 + longest stored key; exists(pattern) <=> some stored key matches level by level (own matcher). Non-trivial = a shrink that removed >=1 key while a sibling key "
+           "stayed. Distinct = distinct case text.",
     "C17": "rapidcheck generates byte strings (0-4 KiB, biased to NUL, 0xFF, CR, LF, 0x1A; at low weight repeated up to 4 MiB quick / 32 MiB thorough), a split into 1-8 chunks written "
            "through the three write overloads (incl. elementSize 2/4), an open mode (Write/WriteText truncating, Append/AppendText extending pre-existing content) and a read-phase "
            "sequence of seek/tell/size/read(buf,size,count)/read()/readStr()/reopen in Read or ReadText; plus error cases (missing file, directory). Oracle: byte + position model; "
@@ -112,6 +127,9 @@ VS = ["controlled scheduler: pre-emption only at synchronisation operations, thr
       "glibc pthread primitives are modelled by the scheduler (mutex owner table, condvar waiter lists), not executed"]
 
 ASSUMPTIONS = {
+    "C06": ["own matcher: one hand-written predicate per regex in a fixed table", "explicit matching template arguments on subscribe and notify, as the header requires",
+            "handles of invalidated (lazily removed) observers are never touched again"],
+    "C13": ["as C06", "self-invalidation requests still pending when a shrink starts are cancelled so that the probe notifies change nothing themselves"],
     "C17": ["POSIX only (text mode == binary mode)", "std::filesystem and std::ifstream are trusted", "read()/readStr() on streams opened for writing are outside the property"],
     "C18": ["POSIX only; no symlinks or special files", "names containing '\\' are used for the filesystem oracle only, not for the join/name/parent law", "visitors are used strictly nested (LIFO)"],
     "C19": ["inputs whose country NAME contains '.' (Virgin Islands, U.S.) are ambiguous in the documented format and accepted either way (counted)",
